@@ -101,21 +101,23 @@ def WUnd (given : Option Name) (a : List Nat) : Prop :=
   | some g => fixEncoding a g false = none
   | none => detectUnicode a false = none
 
-/-! ## `reset()` of the incremental classes (`codec.py:330-334`, `:427-430`)
+/-! ## `reset()` of the incremental classes (`codec.py:340-345`, `:437-441`)
 
-`IncrementalDecoder.reset`: `self.decoder = None; self.buffer = b""; self.headerfixed = False` — and nothing else:
-`self.encoding`, which `decode` overwrites with the detected encoding (`codec.py:307`), keeps that value.
-`IncrementalEncoder.reset`: `self.encoder = None; self.buffer = ""`; `self.encoding` likewise stays
-(`codec.py:409`). `force` is a constructor argument that never changes. -/
+`IncrementalDecoder.reset`: `self.decoder = None; self.encoding = self._initialencoding; self.buffer = b"";
+self.headerfixed = False`. `decode` overwrites `self.encoding` with the detected encoding (`codec.py:309`);
+`_initialencoding` is the constructor's `encoding` argument, kept since the fix "reset() of the incremental css
+decoder and encoder forgets the encoding detected in the previous input".
+`IncrementalEncoder.reset`: `self.encoder = None; self.encoding = self._initialencoding; self.buffer = ""`.
+`initial` (`_initialencoding`) and `force` are constructor arguments that never change. -/
 
-def DSt.reset (force : Bool) : DSt → DSt
-  | .waiting g _ _ => .waiting g force []
-  | .decoding E _ _ => .waiting (some E) force []
-  | .streaming E _ => .waiting (some E) force []
+def DSt.reset (initial : Option Name) (force : Bool) : DSt → DSt
+  | .waiting _ _ _ => .waiting initial force []
+  | .decoding _ _ _ => .waiting initial force []
+  | .streaming _ _ => .waiting initial force []
 
-def ESt.reset : ESt → ESt
-  | .waiting g _ => .waiting g []
-  | .encoding E _ => .waiting (some E) []
+def ESt.reset (initial : Option Name) : ESt → ESt
+  | .waiting _ _ => .waiting initial []
+  | .encoding _ _ => .waiting initial []
 
 instance (given : Option Name) (a : List Nat) : Decidable (WUnd given a) :=
   match given with
